@@ -10,6 +10,12 @@ func propC03(c *Ctx) propInfo {
 	c.codecPairs("E5.codec-pair", skipPairs, "tlb", "wallet")
 	c.floor("E5.codec-pair", 20)
 	c.lossyConversions(excC03Lossy, "tlb", "wallet", "ton", "tl")
+	c.sumAltConsistency("E12.sum-alt", "tlb", "wallet", "abi", "ton")
+	c.floor("E12.sum-alt", 5)
+	c.bigFromUnsigned("E2.R-bigsign", excBigSign, "boc", "tlb", "wallet", "ton")
+	c.floor("E2.R-bigsign", 5)
+	c.cursorFreeEncoders("E10.cursor-free-encode", excCursorFree, "tlb", "wallet", "abi")
+	c.floor("E10.cursor-free-encode", 1)
 	c.floor("E2.R-lossyconv", 4)
 	return propInfo{
 		explanation: "Static structural clauses of C03 (DESIGN.md §4 C03): tag hygiene over every struct type of the TL-B universe (tags parse under the codec's grammar, sum types fully tagged and prefix-free in first-match order, field kinds supported in both directions, no unexported field in a reflectively coded struct, custom codecs two-sided), hand-written Marshal/Unmarshal pairs emit and consume the same event sequences, generated integer family widths agree on both sides, no read result or error is dropped in codecs. Decides these necessary conditions, not value equality after a round trip.",
@@ -36,3 +42,6 @@ var skipPairs = map[string]string{
 	"wallet.W5Actions":         "linked list of actions written by hand and read through W5SendMessageAction: covered by the C14 action-layout rule",
 	"wallet.W5ExtendedActions": "linked list with value-dependent termination",
 }
+
+var excBigSign = map[string]string{}
+var excCursorFree = map[string]string{}
